@@ -332,3 +332,22 @@ def phi_alternatives(b, term, limit=16):
         for val, bi in vals:
             work.append((subst(t, v, val), conds + list(b.dominating_conditions(bi))))
     return out
+
+
+def orient(x):
+    """one spelling per comparison / checked arithmetic in rendered (apnf.N) terms: a > b is b < a, a >= b is b <= a, and the
+    value of a guarded `a - b` is Sub(a, b) whether it was written `a - b` (overflow-asserted) or taken from `checked_sub`"""
+    if isinstance(x, tuple):
+        x = tuple(orient(y) for y in x)
+        if len(x) == 3 and x[0] == "Gt":
+            return ("Lt", x[2], x[1])
+        if len(x) == 3 and x[0] == "Ge":
+            return ("Le", x[2], x[1])
+        if len(x) == 3 and x[0] == "checked_sub":      # the Some payload (only reachable where the subtraction cannot wrap)
+            return ("Sub", x[1], x[2])
+        if len(x) == 2 and x[0] == ".0" and isinstance(x[1], tuple) and len(x[1]) == 3 and x[1][0] in ("SubWithOverflow", "AddWithOverflow", "MulWithOverflow"):
+            return (x[1][0][:3], x[1][1], x[1][2])
+        return x
+    if isinstance(x, frozenset):
+        return frozenset(orient(y) for y in x)
+    return x
